@@ -82,6 +82,7 @@ class Ctx:
         self.extra = {}
         self.coq_cases = 0
         self.level = "proof"
+        self.harnesses = []
 
     def cleanup(self):
         shutil.rmtree(self.scratch, ignore_errors=True)
@@ -143,15 +144,48 @@ def forbidden_scan():
     return bad
 
 
-def coq_make(ctx, timeout=3000):
-    """Full .vo build of the development (never -vos); incremental after setup. Serialised by a lock."""
+def gen_coqproject():
+    """coq/_CoqProject is assembled from coq/<Dir>/FILES (one .v path per line, dependency order irrelevant)."""
+    lines = ["-Q . MV", "-arg -w -arg -notation-overridden,-deprecated-hint-without-locality,-deprecated-instance-without-locality,-ambiguous-paths"]
+    for d in sorted(os.listdir(COQ)):
+        fl = os.path.join(COQ, d, "FILES")
+        if os.path.isfile(fl):
+            for l in open(fl):
+                l = l.strip()
+                if l and not l.startswith("#"):
+                    lines.append(d + "/" + l if "/" not in l else l)
+    txt = "\n".join(lines) + "\n"
+    p = os.path.join(COQ, "_CoqProject")
+    if not os.path.exists(p) or open(p).read() != txt:
+        open(p, "w").write(txt)
+        return True
+    return False
+
+
+def dir_files(d):
+    fl = os.path.join(COQ, d, "FILES")
+    out = []
+    for l in open(fl):
+        l = l.strip()
+        if l and not l.startswith("#"):
+            out.append(d + "/" + l if "/" not in l else l)
+    return out
+
+
+def coq_make(ctx, dirs=None, timeout=3000):
+    """Full .vo build (never -vos) of the listed directories of the development and what they depend on
+    (all of it when dirs is None); incremental after setup. Serialised by a lock."""
     lock = open(os.path.join(COQ, ".lock"), "w")
     fcntl.flock(lock, fcntl.LOCK_EX)
     try:
-        if not os.path.exists(os.path.join(COQ, "Makefile")) or \
-                os.path.getmtime(os.path.join(COQ, "Makefile")) < os.path.getmtime(os.path.join(COQ, "_CoqProject")):
+        changed = gen_coqproject()
+        if changed or not os.path.exists(os.path.join(COQ, "Makefile")):
             sh("coq_makefile -f _CoqProject -o Makefile", cwd=COQ, check=True)
-        rc, out, err, dt = sh(["make", "-j%d" % NCPU], cwd=COQ, timeout=timeout)
+        targets = []
+        if dirs:
+            for d in dirs:
+                targets += [f[:-2] + ".vo" for f in dir_files(d)]
+        rc, out, err, dt = sh(["make", "-j%d" % NCPU] + targets, cwd=COQ, timeout=timeout)
         if rc != 0:
             ctx.proof_errors.append("make failed:\n" + (out + err)[-3000:])
         return rc == 0
@@ -273,6 +307,7 @@ def run_harness(ctx, binary, sub, args=None, timeout=1800, coq=True, env=None):
     outdir = os.path.join(ctx.scratch, "out_" + sub)
     os.makedirs(outdir, exist_ok=True)
     cmd = [binary, "-out", outdir, "-seed", str(ctx.seed), "-tier", ctx.tier] + (args or [])
+    ctx.harnesses.append((binary, sub, list(args or []), env))
     rc, o, e, dt = sh(cmd, timeout=timeout, env=env)
     if rc != 0:
         raise CheckError("harness %s failed rc=%s:\n%s" % (sub, rc, (o + e)[-4000:]))
@@ -329,6 +364,74 @@ def match_known(prop, v):
         if all(sig.get(k) == val for k, val in (f.get("where") or {}).items()):
             return f
     return None
+
+
+def default_search(ctx, budget_s=None):
+    """Failing-input search used when a proof obligation or the correspondence broke but no monitor fired on
+    the regular run: re-run every sub-harness of the property at thorough volume under fresh seeds, monitors
+    only (no model evaluation), until the time budget is spent. Returns an unexplained monitor hit or None."""
+    budget = budget_s or (90 if ctx.tier == "quick" else 600)
+    t0 = time.time()
+    k = 0
+    tried = 0
+    while time.time() - t0 < budget and ctx.harnesses:
+        k += 1
+        for (binary, sub, args, env) in ctx.harnesses:
+            left = budget - (time.time() - t0)
+            if left <= 0:
+                break
+            outdir = os.path.join(ctx.scratch, "search_%s_%d" % (sub, k))
+            os.makedirs(outdir, exist_ok=True)
+            rc, o, e, dt = sh([binary, "-out", outdir, "-seed", str(ctx.seed + 7919 * k), "-tier", "thorough", "-nocoq"] + args,
+                              timeout=max(10, left), env=env)
+            for sp in glob.glob(os.path.join(outdir, "*_summary.json")):
+                s = json.load(open(sp))
+                tried += s.get("evaluations", 0)
+                for v in s.get("violations") or []:
+                    if not match_known(ctx.prop, v):
+                        v["search"] = {"seed": ctx.seed + 7919 * k, "tier": "thorough", "inputs_tried": tried}
+                        return v
+            shutil.rmtree(outdir, ignore_errors=True)
+    ctx.extra["search"] = {"inputs_tried": tried, "wall_s": round(time.time() - t0, 1), "found": False}
+    return None
+
+
+def standard_check(ctx, coq_dirs, properties, harnesses, trusted, design_ref, checker_extra="", chk_modules=None, pre=None):
+    """The common shape of a check: forbidden-construct scan, build + re-check the theorems, build and run each
+    sub-harness against REPO, evaluate the recorded runs in Coq, decide, write evidence.
+    harnesses: list of dicts {pkg, sub, args?, go?, race?, coq?, timeout?}"""
+    ctx.trusted += trusted
+    bad = forbidden_scan()
+    if bad:
+        ctx.proof_errors.append("forbidden constructs: %s" % bad[:5])
+    if coq_make(ctx, ["Lib"] + coq_dirs):
+        for pf in ([properties] if isinstance(properties, str) else properties):
+            coq_properties(ctx, pf)
+    if pre:
+        pre(ctx)
+    built = {}
+    for h in harnesses:
+        key = (h["pkg"], h.get("go", "go"), h.get("race", False))
+        if key not in built:
+            built[key] = go_build(ctx, h["pkg"], go=h.get("go", "go"), race=h.get("race", False), tags=h.get("tags", "verif"))
+        run_harness(ctx, built[key], h["sub"], args=h.get("args"), coq=h.get("coq", True), timeout=h.get("timeout", 1800), env=h.get("env"))
+    if ctx.tier == "thorough" and chk_modules:
+        coqchk(ctx, chk_modules)
+    cmd = "make -C coq (full .vo build) && coqc %s (Print Assumptions per theorem); go build harness/cmd/{%s} against /repo working tree; " \
+          "coqc <generated cases shards> (vm_compute) %s" % (properties, ",".join(sorted({h["pkg"] for h in harnesses})), checker_extra)
+    return finish(ctx, cmd, design_ref, search=default_search)
+
+
+def standard_replay(ctx, pkg_for_sub, path):
+    d = json.load(open(path))
+    sub = d.get("sub")
+    pkg = pkg_for_sub.get(sub) or next(iter(pkg_for_sub.values()))
+    b = go_build(ctx, pkg)
+    rc, out, err, _ = sh([b, "-replay", path], timeout=600)
+    print(out.strip())
+    if err.strip():
+        print(err.strip())
+    return rc
 
 
 # ------------------------------------------------------------------------------------------ decision + evidence
